@@ -234,6 +234,7 @@ def r2_defaults_attached(ctx):
     want = {"residual": "residuals.get_default_residuals_wrapper",
             "model": "residuals.get_default_modeling_wrapper"}
     found = {}
+    Ra = Resolver(auto)
     for st in walk_no_nested(auto, False):
         if isinstance(st, ast.Assign) and isinstance(
                 st.targets[0], ast.Attribute) and \
@@ -243,6 +244,9 @@ def r2_defaults_attached(ctx):
             guard = any((not a.pol) and a.text ==
                         f"hasattr(self.module, '{attr}')" for a in conds)
             v = st.value
+            if isinstance(v, ast.Name):
+                rv = Ra.reaching_value(v)
+                v = rv if rv is not None else v
             ok = isinstance(v, ast.Call) and call_name(v) == want.get(attr) \
                 and len(v.keywords) + len(v.args) == 1 and norm(
                     (v.keywords[0].value if v.keywords else v.args[0])) == \
